@@ -218,3 +218,22 @@ def m_char_encode_utf8(ex, site, a):
         raise Panic('encode_utf8', 'encode_utf8: need %d bytes to encode the char but buffer has just %d' % (len(bs), len(buf)), ex.where())
     buf.vec.items[buf.lo:buf.lo + len(bs)] = bs
     return SliceRef(buf.vec, buf.lo, buf.lo + len(bs), 'str')
+
+
+# ----- arithmetic operators on references to primitives (`byte - b'0'` with `byte: &u8`): core's forward_ref_binop impls
+_PRIM = r'(u8|u16|u32|u64|u128|usize|i8|i16|i32|i64|i128|isize|f64|f32)'
+@model(rx(r'^<&?' + _PRIM + r' as (Add|Sub|Mul|Div|Rem|BitAnd|BitOr|BitXor|Shl|Shr)(<&?\w+>)?>::\w+$'))
+def m_ref_binop(ex, site, a):
+    import re
+    m = re.match(r'^<&?(\w+) as (\w+)[<>]', site.key)
+    ty, op = m.group(1), m.group(2)
+    x, y = a[0], a[1]
+    while isinstance(x, Ptr): x = ex.load(x)
+    while isinstance(y, Ptr): y = ex.load(y)
+    if op in ('Add', 'Sub', 'Mul') and not ty.startswith('f'):
+        # the operator impls inherit the overflow checks of the calling crate (the dump is made with overflow-checks=on)
+        r = ex.binop(op + 'WithOverflow', x, y, ty)
+        val, ovf = r.fields
+        if ex.branch(ovf): raise Panic('overflow', 'attempt to %s with overflow' % {'Add': 'add', 'Sub': 'subtract', 'Mul': 'multiply'}[op], ex.where())
+        return val
+    return ex.binop(op, x, y, ty)
